@@ -736,6 +736,11 @@ pub fn run_case(case: &Case) -> Option<Outcome> {
                         for e in ev {
                             b.push(e.clone());
                         }
+                        // `clear` (the overflow truncation of emit_batcher's `Sender::send`) DISCARDS what was queued: the
+                        // batch holds the newer events only, from its start (C09: nothing of the older queue is kept)
+                        if b.index() != 0 || b.total_bufs() != ev.len() || b.len() != ev.len() {
+                            fail(&mut fails, "clear-keeps-discarded-events");
+                        }
                         pending = None;
                         (now, id, Some(b))
                     }
@@ -1119,7 +1124,9 @@ pub fn gen_history_c10(rng: &mut Rng, tier: Tier) -> Case {
         }
         let id_mod = if rng.chance(1, 6) { 2 } else { u32::MAX };
         let id = if collide && rng.chance(4, 5) { cid } else { rng.next() as u32 % id_mod };
-        hist.push(Step::Batch { now, id, pre: vec![], ev });
+        // one batch in eight is built the way an overflowing `Sender::send` leaves it: older events pushed, cleared away
+        let pre: Vec<Vec<u8>> = if rng.chance(1, 8) { (0..rng.range(1, 2)).map(|_| gen_event(&mut rng.fork(), &sep, false)).collect() } else { vec![] };
+        hist.push(Step::Batch { now, id, pre, ev });
         for _ in 0..rng.below(3) {
             if rng.chance(1, 3) && !(collide && rng.chance(3, 4)) {
                 let kind = *rng.pick(&[1u64, 2, 3]);
